@@ -20,6 +20,7 @@ SimNext ==
     \/ \E s \in 1..4 : (Enq("w") \/ Enq("p") \/ Flip("p", FALSE)) /\ w' = s
     \/ \E s \in 1..2, k \in Keys : (BackendChange(k) \/ PubStart(k)) /\ w' = s
     \/ \E s \in 1..3, c \in Conns, k \in Keys, v \in 0..(MaxChg + 1) : Track1(c, k, v) /\ w' = s
+    \/ \E s \in 1..3, c \in Conns : SplitTrack /\ Track2(c) /\ w' = s
     \/ \E s \in 1..2, c \in Conns : Subscribe(c) /\ w' = s
     \/ \E c \in Conns, k \in Keys : Untrack(c, k) /\ w' = 0
     \/ \E c \in Conns : ClientUnsub(c) /\ w' = 0
